@@ -475,11 +475,11 @@ func (w *c20World) v1Bids() {
 	coin := func(d string, n int64) sdk.Coin { return sdk.NewCoin(d, sdk.NewInt(n)) }
 	w.msg("V1 dutch bid partial", auctiontypes.NewMsgPlaceDutchBid(w.u[2].String(), 1, coin("uasset2", 100000), 4, 3))
 	w.msg("V1 dutch bid full", auctiontypes.NewMsgPlaceDutchBid(w.u[3].String(), 2, coin("uasset2", 1000000), 4, 3))
-	w.msg("V1 dutch lend bid partial", auctiontypes.NewMsgPlaceDutchLendBid(w.u[2].String(), 2, coin("uasset1", 10000000), 3, 3))
-	if la, err := w.app.AuctionKeeper.GetDutchLendAuction(w.ctx, 3, 3, 1); err == nil {
-		w.msg("V1 dutch lend bid full", auctiontypes.NewMsgPlaceDutchLendBid(w.u[3].String(), 1, la.OutflowTokenCurrentAmount, 3, 3))
+	w.msg("V1 dutch lend bid partial", auctiontypes.NewMsgPlaceDutchLendBid(w.u[2].String(), 1, coin("uasset1", 10000000), 3, 3))
+	if la, err := w.app.AuctionKeeper.GetDutchLendAuction(w.ctx, 3, 3, 2); err == nil {
+		w.msg("V1 dutch lend bid full", auctiontypes.NewMsgPlaceDutchLendBid(w.u[3].String(), 2, la.OutflowTokenCurrentAmount, 3, 3))
 	} else {
-		w.fail = append(w.fail, "lend auction 1 not found")
+		w.fail = append(w.fail, "lend auction 2 not found")
 	}
 	w.msg("V2 market bid 2", auctionsV2types.NewMsgPlaceMarketBid(w.u[2].String(), 2, coin("uasset3", 1120000)))
 	// an externally initiated liquidation and a full bid on it (fee statistics of external initiators)
@@ -642,12 +642,12 @@ func c20Continuation(us []sdk.AccAddress) []c20Op {
 		{"v1_dutch_bid_id", m(func() sdk.Msg { return auctiontypes.NewMsgPlaceDutchBid(u6.String(), 1, coin("uasset2", 900000), 4, 3) },
 			func(a *chain.App, c sdk.Context) string { return u(a.AuctionKeeper.GetUserBiddingID(c)) })},
 		{"v1_lend_bid", func(a *chain.App, c sdk.Context) string {
-			// buy what is left of the second lend auction
-			la, err := a.AuctionKeeper.GetDutchLendAuction(c, 3, 3, 2)
+			// buy what is left of the first lend auction (the second, most recent one was completed before the export)
+			la, err := a.AuctionKeeper.GetDutchLendAuction(c, 3, 3, 1)
 			if err != nil {
 				return "err"
 			}
-			ok, _ := c20Deliver(a, c, auctiontypes.NewMsgPlaceDutchLendBid(u6.String(), 2, la.OutflowTokenCurrentAmount, 3, 3))
+			ok, _ := c20Deliver(a, c, auctiontypes.NewMsgPlaceDutchLendBid(u6.String(), 1, la.OutflowTokenCurrentAmount, 3, 3))
 			if !ok {
 				return "err"
 			}
